@@ -403,11 +403,10 @@ fn verif_rt_unsync() {
     // iteration meet expired entries that the purge has not reached yet
     for cfg in &cfgs {
         if findings >= 6 { break; }
-        if cfg.ttl.is_none() && cfg.tti.is_none() { continue; }
         if cfg.cap.is_some() && cfg.cap != Some(6) { continue; }
         let cfg = Cfg { cap: if cfg.cap.is_some() { Some(1000) } else { None }, ..*cfg };
         for tail in [vec![Op::Get(149), Op::Get(3)], vec![Op::Contains(148), Op::Contains(2)], vec![Op::Iter], vec![Op::Insert(149, 1), Op::Get(149)], vec![Op::Invalidate(147), Op::Iter],
-                     vec![Op::InvalidateIf(1), Op::Iter]] {
+                     vec![Op::InvalidateIf(1), Op::Iter], vec![Op::InvalidateIf(0), Op::Iter], vec![Op::InvalidateAll, Op::Iter]] {
             for dt in [10u64, 15, 5] {
                 let mut seq: Vec<Op> = (0..150u8).map(|k| Op::Insert(k, k % 4)).collect();
                 seq.push(Op::Get(0)); seq.push(Op::Advance(dt)); seq.extend(tail.iter().cloned());
